@@ -11,7 +11,8 @@ THEOREMS = ["Poor.Props.C19.dset_get", "Poor.Props.C19.dset_get_other", "Poor.Pr
             "Poor.Props.C19.ddel_get_other", "Poor.Props.C19.fanOut_spec", "Poor.Props.C19.fanOut_other_key",
             "Poor.Props.C19.popInner_spec", "Poor.Props.C19.popInner_absent",
             "Poor.Props.C19.addHook_spec", "Poor.Props.C19.popHook_spec", "Poor.Props.C19.hooks_no_duplicates",
-            "Poor.Props.C19.popRoute_not_selected", "Poor.Props.C19.setDefault_only_defaults"]
+            "Poor.Props.C19.popRoute_not_selected", "Poor.Props.C19.setDefault_only_defaults",
+            "Poor.Props.C19.dset_keys", "Poor.Props.C19.fanOut_keys", "Poor.Props.C19.fanOut_nodup"]
 TRUSTED_BASE = ["model Poor.Route (Reg and its set_/pop_/is_ operations) hand-written from wsgi.py:557-967",
                 "python dict / OrderedDict semantics as association lists with in-place update",
                 "Gen.State method table, Gen.Filters built-in filter table (regenerated)"]
